@@ -19,6 +19,9 @@ def run(tier, replay=None):
         "unknown asset / representation / segment name with otherwise ordinary parameters; everything else: no crash, no hang",
         "upload bodies whose first box size is between 1 MiB and 4 GiB without wrapping are not generated (the parser "
         "allocates that much)",
+        "status-code cycles of 10^9..10^10 s are not generated: calcStatusCode walks the whole cycle, a finite computation of "
+        "1.4-7 s per request (measured), which a wall-time bound cannot tell from non-termination; call sites that returned "
+        "twice when re-run alone are recorded as 'slow' (inconclusive, counted, not judged)",
         "value class membership of the concrete strings is by construction in harness/drive/c08/space.go"]
     c.trusted = ["harness/drive/c08 concretiser and recorder (chi LogEntry.Panic capture, goroutine dump on timeout)", "TLC"]
     # (M/R) the abstract space, oracle sanity on every element, GEN lines
